@@ -15,6 +15,20 @@ CHECKS = {
         note="Trusted: TLC, the adapter harness/adapters/nexus.py (maps spec actions to public node/Nexus calls; user functions build terms and read "
              "dependency-only children as hidden inputs), bounded depth (3-4 actions exhaustively from cold and warm starts, deeper by simulation). "
              "Freezing a stale node is excluded (ambiguous in the statement)."),
+    "C12": dict(
+        category="model_checking", design_ref="DESIGN.md 4.6, 5/C12",
+        technique="TLA+ spec HistFill.tla (merge loop of _fill_unprocessed transcribed iteration by iteration) model-checked with TLC; every bounded history of fills/reads/rebins replayed on real HistContainer objects",
+        text="TLC checks CountsOnce, Conservation, EntriesKept, SortedCorrectly, the loop's iteration bound (termination) and RejectLeavesUnchanged over all "
+             "edge sequences of the catalogue (non-uniform, repeated edges, inner-edge and n_bins constructors), all small multisets of entries (on, between, outside edges), "
+             "all batchings and read/rebin interleavings in the bound; each history is executed on the real container and every read compared with the declarative half-open count.",
+        note="Trusted: TLC, harness/adapters/histfill.py. Entries/edges are small integers; bounds: <= 4-5 entries, <= 4 edges, depth 5-6 in TLC, 2-4 steps exhaustively replayed, 12 by simulation."),
+    "C02": dict(
+        category="model_checking", design_ref="DESIGN.md 4.2, 5/C02",
+        technique="TLA+ spec ErrorModel.tla (sources, reference modes, per-source and total caches, model stale flag, pending histogram entries) model-checked with TLC for 6 container kinds; every bounded history replayed on the real containers / parametric models against the spec's exact integer covariance",
+        text="TLC checks ReadCorrect (total = sum of enabled sources at the CURRENT values), CachedTotalIsIdeal, SymmetricPSD and RejectLeavesUnchanged over all histories of "
+             "add / disable / enable / data, x, y setters / fill / parameter changes / copies / reads up to the bound for indexed, xy, histogram containers and their parametric models; "
+             "every history is executed on the real objects; err, cov_mat, cor_mat, cov_mat_inverse are compared with the spec's integer matrix (scale 200), disable+enable must restore the total bit-exactly.",
+        note="Trusted: TLC, harness/adapters/errormodel.py, numpy on 2x2 matrices. Two data points, source catalogue of 6 (simple/matrix, abs/rel, cov/cor form, correlations 0, 0.5, 1), both signs of the reference. Unbinned containers accept no sources and are not modelled."),
 }
 NOT_APPLICABLE = {
     "C16": "Pure real-valued special-function identity (chi2 CDF and its inverse): no state or transitions, and TLC has neither reals nor exp; "
